@@ -306,6 +306,14 @@ class SoftwareSwitchBase (object):
       self.send_error(type=OFPET_FLOW_MOD_FAILED, code=OFPFMFC_BAD_COMMAND,
                       ofp=ofp, connection=connection)
       return
+    if ofp.command in (OFPFC_ADD, OFPFC_MODIFY, OFPFC_MODIFY_STRICT):
+      # Don't install actions we'd be unable to carry out later
+      for action in ofp.actions:
+        if action.type not in self.action_handlers:
+          self.log.warn("Unknown action type: %x " % (action.type,))
+          self.send_error(type=OFPET_BAD_ACTION, code=OFPBAC_BAD_TYPE,
+                          ofp=ofp, connection=connection)
+          return
     handler(flow_mod=ofp, connection=connection, table=self.table)
 
     if ofp.buffer_id is not None:
